@@ -132,7 +132,7 @@ class PathCtx:
                 raise PathInfeasible()
 
     def seq_free(self, t):
-        """True if no sub-term of t has a sequence sort (such assertions form the LIA abstraction)."""
+        """True if no sub-term of t has a sequence or real sort (such assertions form the LIA abstraction)."""
         cache = self._seqfree
         stack = [t]
         order = []
@@ -149,7 +149,7 @@ class PathCtx:
             i = e.get_id()
             if i in cache:
                 continue
-            if z3.is_seq(e) or (z3.is_app(e) and e.decl().kind() == z3.Z3_OP_UNINTERPRETED and e.num_args() > 0):
+            if z3.is_seq(e) or z3.is_real(e) or (z3.is_app(e) and e.decl().kind() == z3.Z3_OP_UNINTERPRETED and e.num_args() > 0):
                 cache[i] = False
             else:
                 cache[i] = all(cache.get(c.get_id(), True) for c in e.children())
